@@ -167,6 +167,43 @@ def seq_cases(variant):
     return [], None
 
 
+def back_to_back(p0):
+    """writes to the SAME-NAMED property of two devices submitted back to back, so that both messages reach the
+    server in one read and both updates are queued for the writer together: both views must show the new values"""
+    from mc.core import e2e
+    from mc.props.client_common import elval
+
+    variant = p0["variant"]
+    kind = variant.split("-")[0]
+    vals = {"text": ("alpha", "beta"), "number": ("7", "9.5"), "switch": ("On", "On")}.get(kind)
+    if vals is None or p0["ndev"] < 2:
+        return []
+    el = "B" if kind == "switch" else "A"
+    specs = DP.deployment(**p0)
+    w = e2e.World(specs)
+    f = []
+    try:
+        c = w.make_client()
+        for dn, v in zip(("DEV0", "DEV1"), vals):
+            c[dn]["TGT"][el].value = v
+            c[dn]["TGT"].submit()
+        w.settle()
+        after = snapshot(w)
+        for di, (dn, v) in enumerate(zip(("DEV0", "DEV1"), vals)):
+            dv = after[di]["TGT"][el]
+            want = float(N.denotes(v)) if kind == "number" else v
+            okd = abs(dv - want) <= 1e-9 if kind == "number" else dv == want
+            cv = elval(c[dn]["TGT"][el])
+            okc = DM.number_matches(cv, want, next(x for x in specs[di]["groups"][0]["vectors"][0]["elements"] if x["name"] == el).get("format", "%f")) if kind == "number" else cv == want
+            if not okd:
+                f.append(("target-value", "kind=%s,back-to-back" % variant, "%s.TGT.%s: driver has %r, expected %r" % (dn, el, dv, want)))
+            elif not okc:
+                f.append(("client-view-stale", "kind=%s,back-to-back" % variant, "%s.TGT.%s: client shows %r, driver has %r" % (dn, el, cv, dv)))
+    finally:
+        w.close()
+    return f
+
+
 def judge_seq(p0, si):
     variant = p0["variant"]
     seqs, want = seq_cases(variant)
@@ -333,6 +370,8 @@ def run_shard(shard):
         res["executions"] += 1
         res["transitions"] += len(steps)
         record(p0, (0, "TGT"), steps, ("history", si), judge_seq(p0, si))
+    res["executions"] += 1
+    record(p0, (0, "TGT"), [("back-to-back",)], ("back-to-back", 0), back_to_back(p0))
     res["states"] = res["executions"]
     res["violations"] = list(sig.values())
     if variant == "text" and ndev == 2:
@@ -362,6 +401,8 @@ def _t(x):
 
 def replay(rep):
     p = rep["p"]
+    if isinstance(rep.get("mode"), list) and rep["mode"][0] == "back-to-back":
+        return [{"clause": c, "disc": d, "what": w} for c, d, w in back_to_back(p)]
     if isinstance(rep.get("mode"), list) and rep["mode"][0] == "history":
         return [{"clause": c, "disc": d, "what": w} for c, d, w in judge_seq(p, rep["mode"][1])]
     assignment = [(n, _t(v) if isinstance(v, list) else v) for n, v in rep["assignment"]]
